@@ -99,8 +99,15 @@ structure IsPrioSort (sort : List Rule → List Rule) : Prop where
   perm   : ∀ l, (sort l).Perm l
   sorted : ∀ l, (sort l).Pairwise (fun a b => a.prio ≤ b.prio)
 
-/-- the sort used when the model is *executed* (stable merge sort) -/
-def stableSort (l : List Rule) : List Rule := l.mergeSort Rule.le
+/-- insert before the first rule whose priority number is not smaller -/
+def insertRule (r : Rule) : List Rule → List Rule
+  | [] => [r]
+  | x :: xs => if r.prio ≤ x.prio then r :: x :: xs else x :: insertRule r xs
+
+/-- the sort used when the model is *executed* (stable insertion sort) -/
+def stableSort : List Rule → List Rule
+  | [] => []
+  | r :: rs => insertRule r (stableSort rs)
 
 /-- the execution loop:
     `for _, rule := range rulesExecuting { if err := rule.Action(…); err != nil { errors[rule.Name] = err };
